@@ -138,8 +138,12 @@ def run(out, tier, seed):
             nfail += 1
             c = tup[2]
             out.judge({"clause": "Predicate", "var": c["k"], "why": ""}, {"point": c})
+    for c in cases:
+        if c.get("e2e") and c.get("leftover"):
+            out.judge({"clause": "Predicate", "var": "throttle", "why": "events that no item explains"}, {"point": c})
     out.traces += n
     out.extra["predicate_points"] = n
+    out.extra["throttle_end_to_end"] = sum(1 for c in cases if c.get("e2e"))
     out.samples.append(cases[0])
     out.samples.append(cases[-1])
     # (3) end to end: conditioned selectors in the scripted world
